@@ -935,6 +935,40 @@ impl StrengthReducedU64 {
     }
 }
 
+/// Verification hooks: thin public wrappers around the private strength-reduced
+/// modulo so an external monitor can drive it with chosen hash values and
+/// divisors. Compiled only with the off-by-default `verif_hooks` cargo feature.
+#[cfg(feature = "verif_hooks")]
+pub mod verif_hooks {
+    use super::StrengthReducedU64;
+
+    /// Partition index of every hash, computed by the production
+    /// `StrengthReducedU64::partition_indices` (allocates `divisor` buckets).
+    pub fn reduced_partition_of(divisor: u64, hashes: &[u64]) -> Vec<u32> {
+        let mut indices = vec![Vec::new(); divisor as usize];
+        StrengthReducedU64::new(divisor).partition_indices(hashes, &mut indices);
+        let mut out = vec![u32::MAX; hashes.len()];
+        for (partition, rows) in indices.iter().enumerate() {
+            for row in rows {
+                out[*row as usize] = partition as u32;
+            }
+        }
+        out
+    }
+
+    /// `value % divisor` through the production constructor and quotient (for
+    /// divisors too large to allocate buckets for).
+    pub fn reduced_remainder(value: u64, divisor: u64) -> u64 {
+        match StrengthReducedU64::new(divisor) {
+            StrengthReducedU64::PowerOfTwo { mask } => value & mask,
+            StrengthReducedU64::Reciprocal {
+                divisor,
+                reciprocal,
+            } => value - StrengthReducedU64::quotient(value, reciprocal) * divisor,
+        }
+    }
+}
+
 impl BatchPartitioner {
     /// Create a new [`BatchPartitioner`] for hash-based repartitioning.
     ///
